@@ -86,6 +86,9 @@ class SmoothedLaplace(Distribution):
             x = np.array([x])
         elif isinstance(x, (list, tuple)):
             x = np.array(x)
+        # Non-positive scale: not a distribution (logpdf is nan), report nan as for points outside a support
+        if np.any(np.asarray(self.scale) <= 0):
+            return x*np.nan
         return -np.array((x - self.location) / self.scale / np.sqrt((x - self.location) ** 2 + self.beta))
 
     def _sample(self, N=1, rng=None):
